@@ -143,20 +143,22 @@ the site is reached, a merged `a || b` exit counting as both):
   dominated by the magic test and by `hdr.Length > MAX_PAYLOAD_LEN` (mirrored as `ReadOk.alloc`, `C24_header_checks`);
 * no `make` is sized by a decoded count (the model would have to mirror it as `allocEv count`, for which `C24_alloc` has no rule);
 * the loops bounded by a decoded count are exactly the ones the model mirrors with `repeatD` (plus the two of the
-  un-modelled `offline` decoder), with the readers the counts come from and the one count check there is (`Addr`). -/
+  un-modelled `offline` decoder), with the readers the counts come from and the one count check there is (`Addr`);
+  `trips=$c`: a plain counting loop that runs `$c` times, whichever way it counts (integer conversions dropped — whether the
+  trip count is `int(count)` or `count` is a matter for the correspondence harness and its hostile counts, not for this fact). -/
 theorem C24_make_sites :
     OntVerif.Gen.P2PAlloc.makeSites =
       ["ReadMessage: make([]byte,const)",
        "ReadMessage: make([]byte,$v.Length) checked $v.Magic!=config.DefConfig.P2PNode.NetworkMagic ; $v.Length>common.MAX_PAYLOAD_LEN"] ∧
     OntVerif.Gen.P2PAlloc.countSizedMakes = [] ∧
     OntVerif.Gen.P2PAlloc.countLoops =
-      ["Addr.Deserialization: for <int($c) $c=NextUint64 checked $c>$src.Len()",     -- decAddr
-       "BlkHeader.Deserialization: for <int($c) $c=NextUint32 unchecked",             -- decHeaders
-       "FindNodeResp.Deserialization: for <int($c) $c=NextUint32 unchecked",          -- decFindNodeResp
-       "Inv.Deserialization: for <int($c) $c=NextUint32 unchecked",                   -- decInv
-       "OfflineWitnessMsg.Deserialization: for <$c $c=ReadUint32 checked $c>math.MaxUint8",  -- not modelled
-       "OfflineWitnessMsg.Deserialization: for <$c $c=ReadUint32 unchecked",          -- not modelled (`offline` is explored only)
-       "SubnetMembers.Deserialization: for <$c $c=ReadUint32 unchecked"] :=            -- decMembers
+      ["Addr.Deserialization: for trips=$c $c=NextUint64 checked $c>$src.Len()",     -- decAddr
+       "BlkHeader.Deserialization: for trips=$c $c=NextUint32 unchecked",             -- decHeaders
+       "FindNodeResp.Deserialization: for trips=$c $c=NextUint32 unchecked",          -- decFindNodeResp
+       "Inv.Deserialization: for trips=$c $c=NextUint32 unchecked",                   -- decInv
+       "OfflineWitnessMsg.Deserialization: for trips=$c $c=ReadUint32 checked $c>math.MaxUint8",  -- not modelled
+       "OfflineWitnessMsg.Deserialization: for trips=$c $c=ReadUint32 unchecked",          -- not modelled (`offline` is explored only)
+       "SubnetMembers.Deserialization: for trips=$c $c=ReadUint32 unchecked"] :=            -- decMembers
   ⟨rfl, rfl, rfl⟩
 
 /-! ### Non-vacuity -/
